@@ -92,6 +92,22 @@ def run(tier, seed, replay=None):
                           {"mode": mode, "scenario": scn, "tag": tag})
         if j % 7 == 0:
             chk.sample({"mode": mode, "scenario": scn, "events": len(ev), "last": {k: v for k, v in ev[-1].items() if k not in ("cells", "ref")}})
+    # ---- (b') the exception funnel under load: thousands of items throwing at once
+    if not replay:
+        sp, ep = os.path.join(work, "stress.json"), os.path.join(work, "stress.ndjson")
+        with open(sp, "w") as f:
+            json.dump({"seed": seed, "n": 4000, "rounds": 12 if tier == "quick" else 60, "threads": 8}, f)
+        rc, out = vlib.run([os.path.join(bdir, "par_driver"), "excstress", sp, ep], timeout=900)
+        rows = vlib.read_ndjson(ep) if os.path.exists(ep) else []
+        if rc != 0 or not rows:
+            chk.violation("crash:excstress", "parallel_exception_handler with 4000 items throwing at once on 8 threads terminated with status %d (heap corruption / terminate in the exception funnel)\n%s" % (rc, out[-300:]),
+                          {"mode": "excstress", "scenario": {"n": 4000, "threads": 8}})
+        elif rows[0]["ok"] != rows[0]["rounds"]:
+            chk.violation("impl:C15_RethrownWasThrown:stress", "parallel_exception_handler with 4000 items throwing at once: only %d of %d rounds ended with one of the thrown exceptions reaching the caller intact" % (
+                rows[0]["ok"], rows[0]["rounds"]), {"mode": "excstress", "scenario": {"n": 4000, "threads": 8}})
+        else:
+            ntr += 1
+        chk.cov["exception_stress"] = rows[0] if rows else None
     # ---- (c) bit-identical results for non-interacting cells at any thread count, and on repetition
     ndet = 0
     if not replay:
